@@ -75,6 +75,9 @@ structure Resp (N K : Type) where
   `hasCycle` in `expandTTU`, `expandUnion`, `expandIntersection`, `expandExclusion`) -/
   cutAt : List N := []
   errs : List ErrKind := []
+  /-- ghost: errors dropped by an exclusion that returned early on `subtractHasCycle`.  Under the pools'
+  cancel-on-error a sibling may not reach the cycle, in which case the real code reports one of them. -/
+  swallowed : List ErrKind := []
   notes : List String := []
 
 inductive LExpr (N K : Type) where
@@ -258,24 +261,27 @@ def cycleResp (n : N) : Resp N K := { cycle := true, cutAt := [n] }
 `hasCycle` kept (`expandDirect`, computed userset) or forgotten (`expandTTU`) -/
 def bagResp (wk : K) (keep : Bool) (rs : List (Resp N K)) : Resp N K :=
   { found := rs.flatMap (·.found), cycle := keep && rs.any (·.cycle), cutAt := rs.flatMap (·.cutAt),
-    errs := rs.flatMap (·.errs), notes := rs.flatMap (·.notes) ++ bagNotes wk (rs.map (·.found)) }
+    errs := rs.flatMap (·.errs), swallowed := rs.flatMap (·.swallowed),
+    notes := rs.flatMap (·.notes) ++ bagNotes wk (rs.map (·.found)) }
 
 def unionResp (wk : K) (rs : List (Resp N K)) : Resp N K :=
   { found := unionR (rs.map (·.found)), cutAt := rs.flatMap (·.cutAt), errs := rs.flatMap (·.errs),
-    notes := rs.flatMap (·.notes) ++ unionNotes wk (rs.map (·.found)) }
+    swallowed := rs.flatMap (·.swallowed), notes := rs.flatMap (·.notes) ++ unionNotes wk (rs.map (·.found)) }
 
 def interResp (wk : K) (rs : List (Resp N K)) : Resp N K :=
   { found := interR wk (rs.map (·.found)), cutAt := rs.flatMap (·.cutAt), errs := rs.flatMap (·.errs),
-    notes := rs.flatMap (·.notes) ++ interNotes wk (rs.map (·.found)) }
+    swallowed := rs.flatMap (·.swallowed), notes := rs.flatMap (·.notes) ++ interNotes wk (rs.map (·.found)) }
 
 /-- `if subtractHasCycle { return expandResponse{err: nil} }` -/
 def diffCycleResp (rb rs : Resp N K) : Resp N K :=
-  { cutAt := rb.cutAt ++ rs.cutAt, notes := rb.notes ++ rs.notes ++ ["excl-cycle"] }
+  { cutAt := rb.cutAt ++ rs.cutAt, swallowed := rb.errs ++ rs.errs ++ rb.swallowed ++ rs.swallowed,
+    notes := rb.notes ++ rs.notes ++ ["excl-cycle"] }
 
 /-- `V`: the path of the exclusion itself.  `excl-sub-cut`: the subtracted operand was cut at a
 sub-problem of that path, i.e. it depends (negatively) on a sub-problem that is still being expanded. -/
 def diffResp (wk : K) (isWild : K → Bool) (V : List N) (rb rs : Resp N K) (bm sm : List (Found K)) : Resp N K :=
   { found := exclR wk isWild bm sm, cutAt := rb.cutAt ++ rs.cutAt, errs := rb.errs ++ rs.errs,
+    swallowed := rb.swallowed ++ rs.swallowed,
     notes := rb.notes ++ rs.notes ++ clashNote rb.found ++ clashNote rs.found ++ exclNotes wk bm sm ++
       unreadNote rb.found ++ unreadNote rs.found ++ noteIf (rs.cutAt.any (fun n => V.contains n)) "excl-sub-cut" }
 
@@ -284,9 +290,11 @@ structure Answer (K : Type) where
   users : List K
   errs : List ErrKind
   notes : List String
+  /-- ghost, see `Resp.swallowed` -/
+  swallowed : List ErrKind := []
 
 def answerOf (r : Resp N K) (m : List (Found K)) : Answer K :=
-  { users := finalOf m, errs := r.errs, notes := r.notes ++ clashNote r.found }
+  { users := finalOf m, errs := r.errs, notes := r.notes ++ clashNote r.found, swallowed := r.swallowed }
 
 end builders
 
